@@ -330,3 +330,44 @@ func VH_C03_FindRoots(k, j, tree int) {
 	vAssert(missing >= 0, "findRoots returns a count")
 	_ = s.guessPaths()
 }
+
+// VH_C14_SharedOpts: scanning with path guessing does not write to the options
+// value it is given (which other goroutines may be scanning with at the same
+// time): two local GOPATHs, the file named by the dump exists under the
+// which-th one (src tree or module cache), the dump goes through ScanSnapshot.
+// Everything reachable from opts is allocated before the write barrier.
+//
+//verif:prop C14
+//verif:param which 0..1
+//verif:param tree 0..1
+//verif:param k 2..3
+func VH_C14_SharedOpts(which, tree, k int) {
+	parts := make([]string, k)
+	for i := range parts {
+		b := vBytes("part"+string(rune('0'+i)), 1)
+		vAssume(vAnd(b[0] >= 'a', b[0] <= 'z'))
+		parts[i] = string(b)
+	}
+	root := vTempRoot()
+	gp := []string{root + "/gp1", root + "/gp2"}
+	opts := &Opts{LocalGOROOT: root + "/goroot", LocalGOPATHs: gp, GuessPaths: true}
+	sub := "src"
+	if tree == 1 {
+		sub = "pkg/mod"
+	}
+	vSetFile(pathJoin(gp[which], sub, pathJoin(parts[1:]...)) + ".go")
+	// remote workspace /<parts[0]>, same tree below it
+	dump := "goroutine 1 [running]:\nmain.f()\n\t/" + pathJoin(parts[0], sub, pathJoin(parts[1:]...)) + ".go:1 +0x1\n\n"
+	vBarrierOn()
+	f := &vhFeeder{data: []byte(dump)} // the stream and the sink are this call's own
+	sink := &vhSink{}
+	s, _, _ := ScanSnapshot(f, sink, opts)
+	vBarrierOff()
+	vReach("scanned with shared options")
+	vAssert(s != nil && len(s.Goroutines) == 1, "the dump is parsed")
+	vAssert(len(opts.LocalGOPATHs) == 2 && opts.LocalGOPATHs[0] == root+"/gp1" && opts.LocalGOPATHs[1] == root+"/gp2", "the caller's GOPATH list is unchanged")
+	vAssert(opts.LocalGOROOT == root+"/goroot", "the caller's GOROOT is unchanged")
+	if len(s.RemoteGOPATHs) != 0 {
+		vReach("a remote workspace was mapped")
+	}
+}
